@@ -396,9 +396,12 @@ package keeper
 //@ // ---- C13: only governance changes the vesting denomination, and only while no pool exists ----
 //@ spec func vpKey() str = global("types.ParamsKey")
 //@ pred noPools() = forall o: str :: {$pFound[o]} !$pFound[o]
+//@ // store iteration is not modelled: the list of all owners' pools is assumed to be the stored records (each agrees with the ghost view)
 //@ func (k Keeper) GetAllAccountVestingPools(ctx) (list)
 //@   trusted
 //@   ensures (len(list) == 0) == noPools()
+//@   ensures off(list) == 0 && (forall i: int :: {list[i].Owner} 0 <= i && i < len(list) ==> $pFound[list[i].Owner] && len(list[i].VestingPools) == $pLen[list[i].Owner]
+//@     && (forall m: int :: {list[i].VestingPools[m]} 0 <= m && m < len(list[i].VestingPools) ==> list[i].VestingPools[m] != nil && poolEq(list[i].VestingPools[m], list[i].Owner, m)))
 //@ func (k Keeper) SetParams(ctx, p) (err)
 //@   modifies $kvHas, $kvVal
 //@   ensures err != nil ==> kvUnchanged()
